@@ -1,4 +1,5 @@
 import collections
+import itertools
 import typing as tp
 
 from cirbo.core.circuit import (
@@ -157,19 +158,19 @@ def _process_nor(cnf: CnfRaw, top_lit: Lit, lits: list[Lit]):
 
 
 def _process_xor(cnf: CnfRaw, top_lit: Lit, lits: list[Lit]):
-    a, b, c = lits[0], lits[1], top_lit
-    cnf.append([-a, -b, -c])
-    cnf.append([-a, b, c])
-    cnf.append([a, -b, c])
-    cnf.append([a, b, -c])
+    # one clause per operand assignment: it forces top_lit to the parity of that assignment
+    for values in itertools.product((True, False), repeat=len(lits)):
+        clause = [-lit if value else lit for lit, value in zip(lits, values)]
+        clause.append(top_lit if sum(values) % 2 == 1 else -top_lit)
+        cnf.append(clause)
 
 
 def _process_nxor(cnf: CnfRaw, top_lit: Lit, lits: list[Lit]):
-    a, b, c = lits[0], lits[1], top_lit
-    cnf.append([-a, -b, c])
-    cnf.append([-a, b, -c])
-    cnf.append([a, -b, -c])
-    cnf.append([a, b, c])
+    # one clause per operand assignment: it forces top_lit to the negated parity
+    for values in itertools.product((True, False), repeat=len(lits)):
+        clause = [-lit if value else lit for lit, value in zip(lits, values)]
+        clause.append(-top_lit if sum(values) % 2 == 1 else top_lit)
+        cnf.append(clause)
 
 
 def _process_gt(cnf: CnfRaw, top_lit: Lit, lits: list[Lit]):
